@@ -181,7 +181,7 @@ def build(repo=None):
                         module_mutables.add(t.id)
         # module-level mutable containers other than constant tables must not exist in the check modules
         tables = {"bools", "uints", "ints", "float8", "floats", "complexes", "_union_types"}
-        ob(f"C06:no-module-level-mutable-container-in-{rel.split('/')[-1]}", module_mutables <= tables, ["C06", "C12"] + (["C08"] if rel.endswith("_pytree_type.py") else []), found=sorted(module_mutables - tables))
+        ob(f"C06:no-module-level-mutable-container-in-{rel.split('/')[-1]}", module_mutables <= tables, ["C06", "C12"] + (["C08"] if rel.endswith("_pytree_type.py") else []) + (["C03"] if rel.endswith("_array_types.py") else []), found=sorted(module_mutables - tables))
     # class-level mutable state on the metaclasses
     am = get("jaxtyping/_array_types.py")
     meta_cls = am.cls("_MetaAbstractArray")
